@@ -40,6 +40,7 @@ CLAIMS = {
   "C14": ("macro-seq", MACRO_TXT, "6 C14"),
   "C15": ("macro-seq+conc", MACRO_TXT + " Concurrent clause: " + CONC_TXT, "6 C15"),
   "C16": ("engine-seq", ENGINE_TXT, "6 C16"),
+  "C20": ("macro-seq", MACRO_TXT + " For this property the System specification lets async calls be suspended after their lookup, interleaves other operations, and resumes or drops them; the harness polls the real futures by hand (gates at every await), logs every poll, checks after each pending poll and each drop that no cache changed and no cache lock is held, and runs everything under a watchdog.", "6 C20"),
 }
 EXTRA = {}
 try:
